@@ -77,7 +77,7 @@ func subsetWithout(r *rand.Rand, exclude string) []string {
 
 func (m c16) Run(ctx *core.Ctx) {
 	r := ctx.Rng
-	n := split(tierN(ctx.Tier, 150_000, 4_000_000)*int64(len(c16Clauses)), ctx.Shard, ctx.NShards)
+	n := split(tierN(ctx.Tier, 250_000, 4_000_000)*int64(len(c16Clauses)), ctx.Shard, ctx.NShards)
 	for i := int64(0); i < n; i++ {
 		clause := c16Clauses[int(i)%len(c16Clauses)]
 		cs := &core.Case{Check: clause}
